@@ -356,12 +356,19 @@ def emit(e: E, o: Opts, scope, ascii_only, latin1, top=False):
                 o.applied.add("pad-non-string-leaf")
             if len(t) > 1 and (o.comments or o.pi_in_chardata) and rng.random() < 0.3:
                 k = rng.randrange(1, len(t))
-                if o.pi_in_chardata and rng.random() < 0.5:
-                    body.append(esc_text(t[:k], o, ascii_only, latin1) + "<?vf inside?>" + esc_text(t[k:], o, ascii_only, latin1))
-                    o.applied.add("pi-inside-chardata")
-                else:
-                    body.append(esc_text(t[:k], o, ascii_only, latin1) + "<!--in-->" + esc_text(t[k:], o, ascii_only, latin1))
-                    o.applied.add("comment-inside-chardata")
+                # one marker, or a run of adjacent ones with no text between them (seeded change C09-r4-1: a tree walk that
+                # stops joining text at the first marker without a tail)
+                run = []
+                for _ in range(rng.choice([1, 1, 1, 2, 2, 3])):
+                    if o.pi_in_chardata and (not o.comments or rng.random() < 0.5):
+                        run.append("<?vf inside?>")
+                        o.applied.add("pi-inside-chardata")
+                    else:
+                        run.append("<!--in-->")
+                        o.applied.add("comment-inside-chardata")
+                if len(run) > 1:
+                    o.applied.add("adjacent-markers-inside-chardata")
+                body.append(esc_text(t[:k], o, ascii_only, latin1) + "".join(run) + esc_text(t[k:], o, ascii_only, latin1))
             else:
                 body.append(esc_text(t, o, ascii_only, latin1))
         elif it[0] == "comment":
